@@ -325,7 +325,9 @@ def run_query(b, q, mem_gb):
             # for every reachable witness); only when an obligation fails is the query re-run with --trace for the inputs
             rc, o, e, s, to = sh([x for x in cmd if x != '--trace'], timeout=budget, mem_gb=mem_gb)
             pr0 = None if to else parse_cbmc_json(o)
-            if pr0 is not None and pr0[0] is not None and not any(p.get('status') == 'FAILURE' and not p.get('description', '').startswith('VF_WITNESS') for p in pr0[0]):
+            if to:
+                pass   # no verdict within the budget: a second run with traces would not do better
+            elif pr0 is not None and pr0[0] is not None and not any(p.get('status') == 'FAILURE' and not p.get('description', '').startswith('VF_WITNESS') for p in pr0[0]):
                 pass   # nothing but witnesses failed: this run is the verdict
             else:
                 r.secs += s
